@@ -75,6 +75,7 @@ func (g *gen) signVerifyRoundtrip(id string, d *dilithium.Dilithium, msg []byte,
 	v := dilithium.Verify(msg, sig, &pk)
 	g.check(v, "verify-sign", fmt.Sprintf("Verify(msg, Sign(msg), PK) = false for msg=%s", hx(msg)), line, fmt.Sprintf("dl.verify %s %s %s", hx(msg), hx(sig[:]), hx(pk[:])))
 	sm, err2 := d.Seal(msg)
+	g.st.hold("dl.seal "+id+" "+hx(msg), sm)
 	g.check(err2 == nil && bytes.Equal(dilithium.Open(sm, &pk), msg) && (len(msg) > 0 || dilithium.Open(sm, &pk) != nil), "open-seal", "Open(Seal(msg)) != msg for msg="+hx(msg), line)
 	g.check(bytes.Equal(dilithium.ExtractSignature(sm), sig[:]), "extract-signature", "ExtractSignature(Seal(msg)) != Sign(msg)", line)
 	g.check(bytes.Equal(dilithium.ExtractMessage(sm), msg), "extract-message", "ExtractMessage(Seal(msg)) != msg", line)
@@ -142,6 +143,36 @@ func genC03(g *gen) {
 		g.check(ok, "verify-sign", "Verify(Sign(m)) = false for msg="+hx(m[:]), "dl.new z "+hx(make([]byte, 48)), "dl.sign z "+hx(m[:]))
 		mu.Unlock()
 	})
+	// implementation only, many keys: a defect of key generation that matters for some seeds only (a rounding tie, a rare
+	// sampler path) shows as signatures that do not verify under that key
+	nk := 1500
+	if g.thorough {
+		nk = 20000
+	}
+	parallel(nk, func(i int) {
+		var seed [48]byte
+		binary.LittleEndian.PutUint64(seed[:], uint64(i))
+		binary.LittleEndian.PutUint64(seed[40:], uint64(g.seed))
+		d, err := dilithium.NewDilithiumFromSeed(seed)
+		if err != nil {
+			return
+		}
+		kpk := d.GetPK()
+		for j := 0; j < 2; j++ {
+			m := []byte{byte(i), byte(i >> 8), byte(j)}
+			if j == 1 {
+				m = nil
+			}
+			sig, e1 := d.Sign(m)
+			ok := e1 == nil && dilithium.Verify(m, sig, &kpk)
+			sm, e2 := d.Seal(m)
+			o := dilithium.Open(sm, &kpk)
+			mu.Lock()
+			g.check(ok, "verify-sign", fmt.Sprintf("Verify(Sign(m)) = false for the key of seed %s, msg=%s", hx(seed[:]), hx(m)), "dl.new k "+hx(seed[:]), "dl.sign k "+hx(m))
+			g.check(e2 == nil && o != nil && bytes.Equal(o, m), "open-seal", fmt.Sprintf("Open(Seal(m)) != m for the key of seed %s, msg=%s", hx(seed[:]), hx(m)), "dl.new k "+hx(seed[:]), "dl.seal k "+hx(m))
+			mu.Unlock()
+		}
+	})
 }
 
 // ---------------------------------------------------------------- C05
@@ -207,6 +238,26 @@ func genC05(g *gen) {
 			o2 := dilithium.Open(sm2, &pk)
 			g.check(o2 != nil && string(o2) == string(m), "open-iff-verify", fmt.Sprintf("Open(Seal(m)) returns nothing / another message for a %d-byte message", len(m)), fmt.Sprintf("dl.open %s %s", hx(sm2), hx(pk[:])))
 		}
+	}
+	// implementation only: thousands of honest signatures (empty hint rows, hint counts up to 75, rows ending in 255, every
+	// shape the signer produces) must be accepted by Verify and by Open
+	{
+		nh := 3000
+		if g.thorough {
+			nh = 40000
+		}
+		var hmu sync.Mutex
+		parallel(nh, func(i int) {
+			var m [10]byte
+			binary.LittleEndian.PutUint64(m[:], uint64(i)+uint64(g.seed)<<40)
+			sg, err := z.Sign(m[:])
+			v := err == nil && dilithium.Verify(m[:], sg, &pk)
+			o := dilithium.Open(append(append([]byte{}, sg[:]...), m[:]...), &pk)
+			hmu.Lock()
+			g.check(v, "honest-accepted", "an honest signature is rejected by Verify: msg="+hx(m[:]), "dl.new z "+hx(make([]byte, 48)), "dl.sign z "+hx(m[:]))
+			g.check(v == (o != nil), "open-iff-verify", "Verify and Open disagree on an honest signature: msg="+hx(m[:]), "dl.new z "+hx(make([]byte, 48)), "dl.sign z "+hx(m[:]))
+			hmu.Unlock()
+		})
 	}
 	hoff := 32 + 7*640
 	// ---- hint-section edits that isolate one decoder check ----
@@ -420,6 +471,60 @@ func genC07(g *gen) {
 			ok := bytes.Equal(pk[:], pkR) && bytes.Equal(sk[:], skR)
 			mu.Lock()
 			g.check(ok, "keygen-vs-reference", "key pair differs from the specification-level reference for seed "+hx(seed[:]), "dl.new k "+hx(seed[:]))
+			mu.Unlock()
+		})
+	}
+	// signatures against the independent reference signer: thousands of (key, message) pairs, the boundary corpus of
+	// the zero-seed key included — rare paths of the signer (a hint at the −γ2 corner, an empty hint row, many
+	// rejections, nonces beyond 255) are compared byte for byte
+	g.note("signing vs an independent specification-level reference signer")
+	{
+		n := 3000
+		nkeys := 12
+		if g.thorough {
+			n, nkeys = 40000, 60
+		}
+		type kp struct {
+			d *dilithium.Dilithium
+			r *refKey
+			s [48]byte
+		}
+		keys := make([]kp, nkeys)
+		parallel(nkeys, func(i int) {
+			var seed [48]byte
+			if i > 0 { // key 0 is the zero-seed key of the corpus
+				binary.LittleEndian.PutUint64(seed[:], uint64(i))
+				binary.LittleEndian.PutUint64(seed[8:], uint64(g.seed))
+			}
+			d, _ := dilithium.NewDilithiumFromSeed(seed)
+			xi := make([]byte, 32)
+			sha3.ShakeSum256(xi, seed[:])
+			keys[i] = kp{d, refKeyFull(xi), seed}
+		})
+		var cm [][]byte
+		for _, ms := range loadCorpus() {
+			cm = append(cm, ms...)
+		}
+		var mu sync.Mutex
+		parallel(n+len(cm), func(i int) {
+			k := keys[i%nkeys]
+			var m []byte
+			if i >= n {
+				k, m = keys[0], cm[i-n]
+			} else {
+				m = make([]byte, 4+i%40)
+				copy(m, []byte{byte(i), byte(i >> 8), byte(i >> 16), byte(g.seed)})
+			}
+			sig, err := k.d.Sign(m)
+			ref, att, fd := refSign(k.r, m)
+			ok := err == nil && bytes.Equal(sig[:], ref)
+			mu.Lock()
+			g.check(ok, "sign-vs-reference", fmt.Sprintf("the signature differs from the specification-level reference signer for the key of seed %s, msg=%s (reference: %d attempts)", hx(k.s[:]), hx(m), att),
+				"dl.new k "+hx(k.s[:]), "dl.sign k "+hx(m))
+			g.counts[fmt.Sprintf("ref-sign-attempts:%d", att)]++
+			if fd > 0 {
+				g.counts["ref-sign-lowbits-formulations-differ"] += fd
+			}
 			mu.Unlock()
 		})
 	}
